@@ -182,6 +182,8 @@ def vary_header(rng, v, parts):
 
 
 def gen_fuse(rng):
+    if rng.random() < 0.15:
+        return fuse_from_variant(rng, rng.choice(fuse_bound_variants(rng)))
     p = make_prog(rng, with_m=False)
     _, parts = header(rng, "i", allow_scalar=(rng.random() < 0.3))
     v2 = "i" if rng.random() < 0.75 else "j"
@@ -223,6 +225,41 @@ def swap_variants(rng):
         ("outer-stop", f"do j = 1, i - {LV_INIT['i'] - a}", f"do i = 1, {b}"),
         ("outer-step", f"do j = 1, {b}, i - {LV_INIT['i'] - 2}", f"do i = 1, {a}"),
     ]
+
+
+def fuse_bound_variants(rng):
+    """(name, header parts, statements of body 1, statements of body 2): loop pairs with textually equal
+    headers whose start/stop/step mention a scalar that one of the bodies assigns.  Fortran evaluates the
+    header at loop entry, so when body 1 assigns the scalar the second loop of the original program runs
+    over a different iteration space: LoopFuseTrans must refuse (the header reads are part of the
+    accesses of the loop node)."""
+    k = rng.randint(-2, 1)
+    c = rng.randint(4, 7)
+    arr = rng.sample(["a", "b", "c"], 3)
+    use1 = f"{arr[0]}(i) = {arr[1]}(i) + {rng.randint(1, 5)}"
+    use2 = f"{arr[2]}(i) = {arr[2]}(i) + {rng.randint(1, 5)} * i"
+    inner1 = ["do j = 1, 3", f"  {arr[0]}(i + j) = {arr[0]}(i + j) + j", "enddo"]
+    return [
+        ("stop-written-in-1", ("1", f"s1 + {c}", 1), [use1, f"s1 = {k}"], [use2]),
+        ("start-written-in-1", ("s0", "9", 1), [f"s0 = {rng.randint(4, 6)}", use1], [use2]),
+        ("step-written-in-1", ("1", "9", "t - t + 1"), [use1, "t = 2"], [use2]),
+        ("stop-written-in-1-nested", ("1", f"s1 + {c}", 1), inner1 + [f"s1 = {k}"], [use2]),
+        ("stop-written-in-2", ("1", f"s1 + {c}", 1), [use1], [use2, f"s1 = {k}"]),
+        ("stop-read-only", ("1", f"s1 + {c}", 1), [use1], [use2]),
+    ]
+
+
+def fuse_from_variant(rng, variant):
+    _, parts, b1, b2 = variant
+    p = make_prog(rng, with_m=False)
+    hdr = fmt_header("i", *parts)
+    body = ["  " + hdr] + ["    " + l for l in b1] + ["  enddo", "  " + hdr] + ["    " + l for l in b2] + ["  enddo"]
+    p.body = body
+    return p
+
+
+def gen_fuse_systematic(rng):
+    return [fuse_from_variant(rng, v) for v in fuse_bound_variants(rng)]
 
 
 def gen_swap_systematic(rng):
